@@ -16,7 +16,8 @@ RULE = (
     "entries inside real visits or padding"
 )
 REQUIRED = {"cmp_state_terms": 150, "cmp_suffstats": 150, "cmp_mstep": 60, "cmp_personalize": 20, "cmp_fit": 10, "twins_garbage": 30, "twins_widened": 12,
-            "masked_in_visit_entries_cases": 8, "padding_cases": 12, "cmp_reput": 100, "cmp_noise_recount": 15, "cmp_noise_recount_frozen_state_averaged_steps": 20}
+            "masked_in_visit_entries_cases": 8, "padding_cases": 12, "cmp_reput": 100, "cmp_noise_recount": 15, "cmp_noise_recount_frozen_state_averaged_steps": 20, "algebra_compared": 300,
+            "algebra_compared_int_weights": 40, "algebra_compared_graded_weights": 40}
 ASSUMPTIONS = [
     "garbage twins: bit-identity demanded (same shapes and op order; masked numbers must never enter a sum)",
     "widened twins: 5e-6 relative; MCMC-based personalisation and fits are not judged under widening (a one-ulp change may legitimately flip a "
@@ -32,7 +33,114 @@ MISSING = ["mcar", "heavy", "feature", "none"]
 
 def shards(tier, seed):
     q = tier == "quick"
-    return [{"name": f"twins-{k}", "k": k, "n": 4 if q else 60, "budget_s": 170 if q else 1500} for k in range(16)]
+    return ([{"name": f"twins-{k}", "k": k, "n": 4 if q else 60, "budget_s": 170 if q else 1500} for k in range(16)]
+            + [{"name": f"algebra-{k}", "kind": "algebra", "k": k, "n": 400 if q else 6000, "budget_s": 60 if q else 600} for k in range(2)])
+
+
+def _algebra(spec, ctx):
+    """The masked-tensor layer itself: whatever sits at entries of weight 0 of an operand (finite, huge, NaN, inf) never shows in a weighted result -
+    for boolean, integer and float weights, for operands whose weights have the same or another (broadcastable) shape. An operation the layer
+    refuses (documented: weights that differ) is fine; an accepted one must be blind to the garbage."""
+    import numpy as np
+    import torch
+
+    from leaspy.utils.weighted_tensor import WeightedTensor, sum_dim, wsum_dim
+
+    GARB = [7.5, -3.0, 1e30, float("nan"), float("inf"), float("-inf")]
+    for i in ctx.cases(spec["n"]):
+        r = ctx.rng("algebra", spec["k"], i)
+        n, T, F = int(r.integers(1, 5)), int(r.integers(1, 6)), int(r.integers(1, 4))
+        wkind = ["bool", "int", "float01", "graded"][i % 4]
+
+        def weights(shape):
+            m = r.random(shape) < 0.65
+            if wkind == "bool":
+                return torch.tensor(m)
+            if wkind == "int":
+                return torch.tensor(m.astype(np.int64) * r.integers(1, 3, size=shape))
+            if wkind == "float01":
+                return torch.tensor(m.astype(np.float32))
+            return torch.tensor((m * r.choice([0.5, 1.0, 1.5], size=shape)).astype(np.float32))
+
+        layout = ["same-weights", "per-visit-vs-per-entry", "other-mask-same-shape", "weighted-vs-plain", "per-entry-vs-per-visit"][int(r.integers(5))]
+        va = torch.tensor(r.normal(size=(n, T, F)), dtype=torch.float32)
+        vb = torch.tensor(r.normal(size=(n, T, F)) + 2.5, dtype=torch.float32)
+        wa = weights((n, T, F))
+        if layout == "same-weights":
+            wb = wa.clone()
+        elif layout == "per-visit-vs-per-entry":
+            wa, wb = weights((n, T, 1)), weights((n, T, F))
+            va = va[..., :1]
+        elif layout == "per-entry-vs-per-visit":
+            wb = weights((n, T, 1))
+            vb = vb[..., :1]
+        elif layout == "other-mask-same-shape":
+            wb = weights((n, T, F))
+        else:
+            wb = None
+        g = GARB[int(r.integers(len(GARB)))]
+        case = {"index": i, "weights": wkind, "layout": layout, "garbage": repr(g), "shape": [n, T, F]}
+
+        def operands(garbage):
+            a_v = torch.where(wa != 0, va, torch.full_like(va, garbage))
+            b_v = vb if wb is None else torch.where(wb != 0, vb, torch.full_like(vb, garbage))
+            return WeightedTensor(a_v, wa.clone()), (b_v if wb is None else WeightedTensor(b_v, wb.clone()))
+
+        op = ["add", "sub", "mul", "truediv", "radd", "rsub", "unary"][int(r.integers(7))]
+
+        def outputs(garbage):
+            a, b = operands(garbage)
+            if op == "unary":
+                res = a
+            elif op == "add":
+                res = a + b
+            elif op == "sub":
+                res = a - b
+            elif op == "mul":
+                res = a * b
+            elif op == "truediv":
+                res = a / b
+            elif op == "radd":
+                res = b + a
+            else:
+                res = b - a
+            if not isinstance(res, WeightedTensor):
+                res = WeightedTensor(res)
+            ws, wn = res.wsum(dim=(1, 2)) if res.ndim == 3 else res.wsum()
+            return {"sum": res.sum(), "sum_dim": sum_dim(res, but_dim=0), "wsum": ws, "wsum_weights": wn.double(), "wsum_dim": wsum_dim(res, but_dim=-1)[0],
+                    "weighted_value": res.weighted_value, "filled": res.filled(0.0)}
+
+        ctx.evaluated()
+        outs, errs = [], []
+        for garbage in (0.0, g):
+            try:
+                outs.append(outputs(garbage))
+                errs.append(None)
+            except NotImplementedError as e:
+                outs.append(None)
+                errs.append("refused")
+            except Exception as e:
+                outs.append(None)
+                errs.append(f"{type(e).__name__}: {str(e)[:120]}")
+        if errs[0] != errs[1]:
+            ctx.violation("masked/algebra/acceptance-depends-on-masked-values", f"{op} on {layout} operands: {errs[0]!r} with zeros at masked entries, {errs[1]!r} with {g!r} there", dict(case, op=op))
+            continue
+        if errs[0] is not None:
+            ctx.count("algebra_refused" if errs[0] == "refused" else "algebra_raised_other")
+            continue
+        ctx.count("algebra_compared")
+        ctx.count(f"algebra_compared_{wkind}_weights")
+        if layout in ("per-visit-vs-per-entry", "per-entry-vs-per-visit", "other-mask-same-shape"):
+            ctx.count("algebra_accepted_with_differing_weights")
+        for name, ref in outs[0].items():
+            got = outs[1][name]
+            same = ref.shape == got.shape and bool(torch.equal(torch.nan_to_num(ref.double(), nan=1e300), torch.nan_to_num(got.double(), nan=1e300)))
+            if not same:
+                ctx.violation("masked/algebra/garbage", f"{op} on {layout} operands with {wkind} weights: '{name}' of the result depends on the number ({g!r}) stored at entries of "
+                              "weight 0", dict(case, op=op, output=name), with_zero=ref.flatten()[:6].tolist(), with_garbage=got.flatten()[:6].tolist())
+                break
+        else:
+            ctx.distinct("algebra", wkind, layout, op, repr(g))
 
 
 def make_twin(ds, rng, kind, garbage=None, widen=0):
@@ -80,6 +188,8 @@ def run_shard(spec, ctx):
     from vf import stateharness as sh
     from vf.checks.c15 import install_contract
 
+    if spec.get("kind") == "algebra":
+        return _algebra(spec, ctx)
     install_contract()
 
     def tensors_of(v):
